@@ -76,8 +76,9 @@ type Step struct {
 }
 
 type Case struct {
-	Kind   string `json:"kind"` // "" (a walk of Privacy.tla) or "bigreply"
+	Kind   string `json:"kind"` // "" (a walk of Privacy.tla), "bigreply" or "badproxy"
 	NPeers int    `json:"npeers"`
+	PxStr  int    `json:"pxstr"` // badproxy: which unusable proxy string
 	ID     int    `json:"id"`
 	Init   State  `json:"init"`
 	Steps  []Step `json:"steps"`
@@ -905,6 +906,173 @@ func (w *world) dropPeers() {
 	}
 }
 
+// badProxies are strings storrent accepts as a torrent's proxy but cannot use.
+var badProxies = []string{
+	"127.0.0.1:9050",            // the scheme forgotten: not a URL
+	"socks5://[::1",             // unbalanced bracket
+	"socks5://127.0.0.1:9050\n", // a pasted line break
+	"socks5://%zz:9050",         // bad escape
+	"gopher://127.0.0.1:9050",   // a URL, but no dialer for the scheme
+}
+
+// runBadProxy: Privacy.tla with PxOk = FALSE.  A proxied torrent whose proxy
+// cannot be used has trackers and web seeds enabled, its tracker is due, a piece
+// is wanted and a peer is dialled.  Whatever would go through the proxy fails;
+// nothing reaches the tracker / web seed (which listen on the IPv6 loopback
+// address when there is one, so a direct contact shows the client's IPv6
+// address) or a peer directly.
+func runBadProxy(c *Case, out *Out) {
+	config.SetDefaultProxy("")
+	config.SetExternalIPv4Port(extTCP, true)
+	config.SetExternalIPv4Port(extUDP, false)
+	config.ProtocolPort = proto
+	config.SetIdleRate(0)
+	config.PrefetchRate = 2e6
+	tor.VerifManualTicks = true
+	px := badProxies[c.PxStr%len(badProxies)]
+	w := &world{seed: uint64(c.ID) + 31, proxy: true, name: "bp.bin"}
+	w.total = 8*2*CS - 900
+	var err error
+	w.lnA, err = net.Listen("tcp6", "[::1]:0")
+	v6 := err == nil
+	if !v6 {
+		w.lnA, err = net.Listen("tcp4", "127.0.0.1:0")
+		if err != nil {
+			out.Note = err.Error()
+			return
+		}
+	}
+	defer w.lnA.Close()
+	srv := &http.Server{Handler: handler{w, "direct"}}
+	go srv.Serve(w.lnA)
+	defer srv.Close()
+	// a peer address that listens, too: a direct dial would connect
+	lnP, err := net.Listen("tcp4", "127.0.0.1:0")
+	if err != nil {
+		out.Note = err.Error()
+		return
+	}
+	defer lnP.Close()
+	go func() {
+		for {
+			conn, err := lnP.Accept()
+			if err != nil {
+				return
+			}
+			w.add("peer:direct")
+			conn.Close()
+		}
+	}()
+	base := "http://" + w.lnA.Addr().String()
+	config.DefaultUseTrackers, config.DefaultUseWebseeds, config.DefaultDhtMode = true, true, dhtMode(c.Init.Conf.Dht)
+	t, err := mktor.New(mktor.Spec{Name: w.name, PieceLen: 2 * CS, Length: w.total, Seed: w.seed,
+		Trackers: []string{base + "/announce"}, Webseeds: []string{base + "/seed/"}}, px)
+	if err != nil {
+		// refusing the string at this point is fine, too: nothing can leak
+		out.Observed = append(out.Observed, []string{"refused: " + err.Error()})
+		return
+	}
+	w.hash = t.Hash
+	tor.VerifAnnounce = func(h hash.Hash, ipv6 bool, port uint16) {
+		if h.Equal(w.hash) && port != 0 {
+			w.add("dht:port")
+		}
+	}
+	defer func() { tor.VerifAnnounce = nil }()
+	var slowTicks int32
+	tor.VerifYield = func(point string) {
+		if point == "run.slowtick" {
+			atomic.AddInt32(&slowTicks, 1)
+		}
+	}
+	defer func() { tor.VerifYield = nil }()
+	ctx, cancel := context.WithCancel(context.Background())
+	defer cancel()
+	t, err = tor.AddTorrent(ctx, t)
+	if err != nil {
+		out.Note = err.Error()
+		return
+	}
+	w.t = t
+	defer func() {
+		k, c2 := context.WithTimeout(context.Background(), 5*time.Second)
+		t.Kill(k)
+		c2()
+		tor.VerifForget(t)
+	}()
+	for n := 0; n < 500 && !tor.VerifTickersReady(t); n++ {
+		time.Sleep(2 * time.Millisecond)
+	}
+	if !tor.VerifTickersReady(t) {
+		out.Note = "the run loop did not register its tickers"
+		return
+	}
+	// SetConf: everything on (again); Want; Tick with the tracker due; Outgoing
+	if err := t.SetConf(peer.TorConf{DhtMode: dhtMode(c.Init.Conf.Dht), UseTrackers: true, UseWebseeds: true}); err != nil {
+		out.Note = "SetConf: " + err.Error()
+		return
+	}
+	for i := 0; i < 2; i++ {
+		if _, _, err := t.Request(uint32(i), 1, true, true); err != nil {
+			out.Note = "Request: " + err.Error()
+			return
+		}
+	}
+	w.barrier()
+	for round := 0; round < 2; round++ {
+		before := atomic.LoadInt32(&slowTicks)
+		w.parked(func() { tor.VerifTick(t, true) })
+		for n := 0; n < 5000 && atomic.LoadInt32(&slowTicks) == before; n++ {
+			time.Sleep(time.Millisecond)
+		}
+		w.parked(func() { tor.VerifTick(t, false) })
+		if atomic.LoadInt32(&slowTicks) == before {
+			out.Note = "the run loop did not take a tick within 5 s"
+			return
+		}
+	}
+	dialed := make(chan error, 1)
+	go func() {
+		dialed <- tor.DialClient(ctx, t, lnP.Addr().(*net.TCPAddr).AddrPort(), crypto.DefaultOptions(false, false))
+	}()
+	select {
+	case <-dialed:
+	case <-time.After(5 * time.Second):
+	}
+	// the announce attempt has ended, one way or the other
+	for n := 0; n < 500; n++ {
+		if st, _ := t.Trackers()[0][0].GetState(); st != tracker.Busy {
+			break
+		}
+		time.Sleep(10 * time.Millisecond)
+	}
+	time.Sleep(300 * time.Millisecond)
+	desc := fmt.Sprintf("proxied torrent, proxy string %q, trackers and web seeds enabled, DHT %s", px, c.Init.Conf.Dht)
+	got := w.take()
+	sort.Strings(got)
+	out.Observed = append(out.Observed, got)
+	w.mu.Lock()
+	notes := append([]string{}, w.notes...)
+	w.mu.Unlock()
+	// what the property names: the listening port, the client version, the IPv6 address
+	reveals := map[string]bool{"tracker:port": true, "http:version": true, "peer:ipv6": true, "peer:version": true, "peer:port": true, "dht:port": true}
+	if v6 {
+		// the tracker and the web seed are reached over IPv6 only: any contact shows the IPv6 address
+		reveals["tracker:noport"], reveals["webseed"] = true, true
+	}
+	for _, o := range got {
+		if reveals[o] {
+			what := fmt.Sprintf("%s was observed from a proxied torrent whose proxy cannot be used: it went out directly", o)
+			if v6 && (strings.HasPrefix(o, "tracker:") || o == "webseed") {
+				what += " to [::1], showing the client's IPv6 address"
+			}
+			out.Violations = append(out.Violations, Viol{"forbidden:direct:" + o, what + " (" + desc + "; " + strings.Join(notes, "; ") + ")"})
+		} else if o == "peer:direct" || o == "tracker:noport" || o == "webseed" {
+			out.Nonconf = append(out.Nonconf, o+" from a proxied torrent whose proxy cannot be used ("+desc+")")
+		}
+	}
+}
+
 // runBigReply (C15, at the level of the torrent): a tracker reply with more
 // peers than the torrent's event queue has room for, arriving while the event
 // loop is busy.  Exactly the peers encoded in the reply are learnt.
@@ -1020,6 +1188,10 @@ func Handle(in []byte) any {
 	out := &Out{ID: c.ID}
 	if c.Kind == "bigreply" {
 		runBigReply(&c, out)
+		return out
+	}
+	if c.Kind == "badproxy" {
+		runBadProxy(&c, out)
 		return out
 	}
 	runCase(&c, out)
